@@ -26,6 +26,7 @@ META["text"] += ' (R6 = C02.R2) the plurality and super-majority assorters take 
 META["text"] += ' (R7, N) Assorter and Assertion constructors store contest, upper_bound, assorter, margin and test unconditionally from the parameters of the same name.'
 META["text"] += ' (R8 = C07.R3) the threshold moves only while the contest is in progress.'
 META["text"] += ' (R9 = C03.R3) every ONEAudit pool mean is the assorter total over the count of the same cards.'
+META["text"] += ' R3 also borrows C09.R1: (d, u) come from mvrs_to_data of the samples handed in, so the filter of R4 is the one that decides which cards contribute.'
 
 SPEC_U = '''
 def spec(at, v, ua):
